@@ -42,7 +42,7 @@ Qed.
 Lemma ok_step_model strict c o : ok_step c o (step strict c o) = true.
 Proof.
   unfold ok_step. rewrite (cleb_spec _ _ (step_grows strict c o)). simpl.
-  destruct o as [i j|i|i s|i]; try reflexivity.
+  destruct o as [i j|i|i s|i|i j inner]; try reflexivity.
   destruct (host_gen c i) as [g|] eqn:Eg; [|reflexivity].
   rewrite (restart_gen strict c i g Eg). apply N.ltb_lt. lia.
 Qed.
@@ -54,6 +54,31 @@ Proof.
   induction ops as [|o ops IH]; intros c; simpl.
   - reflexivity.
   - rewrite ok_step_model. simpl. apply IH.
+Qed.
+
+(* the middle observation of an exchange with inner operations, on the model's own run *)
+Lemma mid_grows strict c o : cle c (mid_of strict c o) /\ cle (mid_of strict c o) (step strict c o).
+Proof.
+  destruct o as [i j|i|i s|i|i j inner]; try (split; [apply cle_refl|apply step_grows]).
+  cbn [mid_of step]. destruct (decide (i = j)); [split; apply cle_refl|].
+  destruct (c !! i) as [vi0|]; [|split; apply cle_refl]. destruct (c !! j) as [vj0|]; [|split; apply cle_refl].
+  split; [apply inner_grows|].
+  set (c1 := fold_left (fun c kl => bstep strict c (inner_op kl)) inner c).
+  destruct (c1 !! i) as [vi1|] eqn:Ei1; [|apply cle_refl].
+  unfold ack. set (vi' := merge vi1 (msg_nodes (sync vj0 (view_digests vi0)))).
+  set (c2 := <[i := vi']> c1).
+  assert (H12 : cle c1 c2) by (apply (cle_insert_grow c1 i vi1 vi' Ei1), merge_vle_l).
+  destruct (c2 !! j) as [vj1|] eqn:Ej2; [|exact H12].
+  eapply cle_trans; [exact H12|]. apply (cle_insert_grow c2 j vj1); [assumption|apply merge_vle_l].
+Qed.
+
+Theorem monitor_mids_sound strict ops : forall c,
+  ok_mids c (combine ops (model_trace strict c ops)) (model_mids strict c ops) = true.
+Proof.
+  induction ops as [|o ops IH]; intros c; [reflexivity|].
+  cbn [model_trace combine model_mids]. destruct o as [i j|i|i s|i|i j inner]; cbn [is_nested app ok_mids]; try apply IH.
+  destruct (mid_grows strict c (ExchangeN i j inner)) as [H1 H2].
+  rewrite (cleb_spec _ _ H1), (cleb_spec _ _ H2). cbn [andb]. apply IH.
 Qed.
 
 Lemma all_equal_spec (c : cluster) :
